@@ -22,7 +22,8 @@ ATOMS = ['string', 'number', 'boolean', 'object', 'bigint', 'symbol', 'null', 'u
          'Date', 'Map<string, number>', 'Set<number>', 'WeakMap<object, any>', 'WeakSet<object>', 'Promise<string>', 'Error', 'RegExp', 'Array<string>', 'Function', 'Object',
          'Partial<Rec0>', 'Required<Rec0>', 'Readonly<Rec0>', 'Record<string, number>', 'Pick<Rec0, "a">', 'Omit<Rec0, "a">', 'InstanceType<typeof Cls0>',
          'Uppercase<"a">', 'Lowercase<"A">', 'Capitalize<"a">', 'Uncapitalize<"A">', 'Parameters<typeof fn0>', 'ConstructorParameters<typeof Cls0>',
-         'NonNullable<string | null>', 'NonNullable<null>', 'NonNullable<Al0 | undefined>', 'Exclude<string | number, number>', 'Extract<string | number, number>', 'OmitThisParameter<() => void>',
+         'NonNullable<string | null>', 'NonNullable<null>', 'NonNullable<Al0 | undefined>', 'Exclude<string | number, number>', 'Extract<string | number, number>', 'Extract<string | Date, object>', 'Extract<number | string[], {}>', 'Extract<string | number, unknown>',
+         'Extract<(() => void) | string, object>', 'Extract<Al2, object>', 'Exclude<string | Date | null, null>', 'Exclude<Al0, string>', 'OmitThisParameter<() => void>',
          'Al0', 'Al1', 'Al2', 'If0', 'If1', 'If2', 'Rec0', 'Cls0', 'Imported0', 'Rec0["a"]', 'Rec0["a" | "b"]', 'Rec0[string]', 'If0["m"]', 'string[][number]', '[string, number][0]', '[string, boolean][number]',
          'Array<Date>[number]', 'Al3["x"]', 'If0[string]', 'If0["a" | "m"]', 'Al4["go"]', 'Al4[Keys0]', 'If3', 'If3["a"]', 'If4', '[string, ...number[]][number]', '[string, ...Date[]][0]', 'Tup0[1]', 'Tup0[number]',
          'Arr0[number]', '{ a: string; f(): void }["f"]', 'If5', '(string)', '(string | number)[]', 'keyof Rec0', 'typeof fn0']
@@ -188,6 +189,32 @@ def inhabitants(te, t, depth=0):
             return {'array'}
         if isn('NonNullable'):
             return (inhabitants(te, params[0], depth + 1) - {'null'}) if params else set()
+        if isn('Extract') and len(params) == 2:
+            # members of T assignable to U - decided only where U is a "top" type for whole value kinds
+            t_in = inhabitants(te, params[0], depth + 1)
+            u = deref(params[1])
+            while u.variant == 'TsParenthesizedType':
+                u = deref(u.fields[0].get('type_ann'))
+            if u.variant == 'TsKeywordType':
+                k = kw(u)
+                if k in ('TsAnyKeyword', 'TsUnknownKeyword'):
+                    return t_in
+                if k == 'TsObjectKeyword':
+                    return t_in & (OBJECTS | {'function'})
+                if k in ('TsStringKeyword', 'TsNumberKeyword', 'TsBooleanKeyword', 'TsBigIntKeyword', 'TsSymbolKeyword'):
+                    return t_in & inhabitants(te, u, depth + 1)
+                return set()
+            if u.variant == 'TsTypeLit' and len(u.fields[0].get('members')) == 0:
+                return t_in - {'null'}          # `{}`: everything but null / undefined
+            if u.variant == 'TsFnOrConstructorType':
+                return set()
+            return set()
+        if isn('Exclude') and len(params) == 2:
+            t_in = inhabitants(te, params[0], depth + 1)
+            u = deref(params[1])
+            if u.variant == 'TsKeywordType' and kw(u) in ('TsStringKeyword', 'TsNumberKeyword', 'TsBooleanKeyword', 'TsBigIntKeyword', 'TsSymbolKeyword', 'TsNullKeyword'):
+                return t_in - inhabitants(te, u, depth + 1)
+            return set()
         return set()
     if v == 'TsIndexedAccessType':
         return _indexed_inhabitants(te, deref(t.fields[0].get('obj_type')), deref(t.fields[0].get('index_type')), depth)
@@ -376,8 +403,9 @@ def accepts(ctx, elist, k):
     return b_or(*rs) if rs else False
 
 
-def emitted_types(ctx, entry_value):
-    """{type: X, required: b, default?} -> (list | None, required)"""
+def emitted_types(ctx, entry_value, raw=False):
+    """{type: X, required: b, default?} -> (list | None, required).  raw=True: the `type` entry as written, ignoring skipCheck
+    (Vue's default resolution compares `type` itself with Function whether or not the check is skipped)"""
     ents = denote.lit_entries(denote.E(entry_value).fields[0])
     ty = [en for en in ents if en[0] == 'kv' and isinstance(en[1], SStr) and en[1].is_concrete() and en[1].py() == 'type']
     rq = [en for en in ents if en[0] == 'kv' and isinstance(en[1], SStr) and en[1].is_concrete() and en[1].py() == 'required']
@@ -388,7 +416,7 @@ def emitted_types(ctx, entry_value):
     if rq and denote.is_expr(rq[-1][2], 'Lit') and rq[-1][2].fields[0].variant == 'Bool':
         req = rq[-1][2].fields[0].fields[0].get('value')
     sk = [en for en in ents if en[0] == 'kv' and isinstance(en[1], SStr) and en[1].is_concrete() and en[1].py() == 'skipCheck']
-    if sk and denote.is_expr(sk[-1][2], 'Lit') and sk[-1][2].fields[0].variant == 'Bool' and sk[-1][2].fields[0].fields[0].get('value') is True:
+    if not raw and sk and denote.is_expr(sk[-1][2], 'Lit') and sk[-1][2].fields[0].variant == 'Bool' and sk[-1][2].fields[0].fields[0].get('value') is True:
         return None, req        # Vue: `skipCheck: true` turns the runtime type check off (the types only drive boolean casting)
     if denote.is_null(tv):
         return None, req
